@@ -230,11 +230,22 @@ pub fn contractclient(attr: TokenStream, item: TokenStream) -> TokenStream {
             };
             let an: Vec<_> = args.iter().map(|(n, _)| n.clone()).collect();
             let at: Vec<_> = args.iter().map(|(_, t)| t.clone()).collect();
+            let try_name = format_ident!("try_{}", fname);
+            let try_name_s = format!("try_{}", fname_s);
             methods.push(quote! {
                 pub fn #fname(&self #(, #an: &#at)*) -> #ret {
                     let mut w = soroban_sdk::shim::Words::new();
                     #( soroban_sdk::shim::Wordy::to_words(#an, &mut w); )*
                     soroban_sdk::shim::invoke::<#ret>(&self.address, #fname_s, w)
+                }
+                /// The non-trapping variant: the callee's failure is handed back to the caller instead of
+                /// failing it.  Logged under its own name (`try_<fn>`), so an obligation that demands the
+                /// trapping call is not satisfied by it; the outcome is nondeterministic.
+                pub fn #try_name(&self #(, #an: &#at)*) -> Result<Result<#ret, soroban_sdk::ConversionError>, Result<soroban_sdk::Error, soroban_sdk::InvokeError>> {
+                    let mut w = soroban_sdk::shim::Words::new();
+                    #( soroban_sdk::shim::Wordy::to_words(#an, &mut w); )*
+                    let r = soroban_sdk::shim::invoke::<#ret>(&self.address, #try_name_s, w);
+                    if soroban_sdk::shim::nondet::<bool>() { Ok(Ok(r)) } else { Err(Ok(soroban_sdk::Error(soroban_sdk::shim::nondet()))) }
                 }
             });
         }
